@@ -1,29 +1,34 @@
 #!/usr/bin/env python3
-"""Regenerates /verif/MANIFEST.json from the table below (kept in one place so
-the manifest stays valid while properties are added)."""
+"""Regenerates /verif/MANIFEST.json.
+
+A property is claimed iff it is listed in tools/claimed.txt (one id per line; the lead adds an id
+only after the driver was silent on the unchanged tree at several seeds) AND its driver directory
+holds MANIFEST_ENTRY.json {technique, text, note} AND cmd/vcheck/reg_<id>.go registers it. Every
+other property goes to not_applicable with the reason given in tools/not_claimed.json (or the
+default reason)."""
 import json, os, subprocess
 ROOT = os.path.dirname(os.path.dirname(os.path.abspath(__file__)))
+DEFAULT_REASON = "check not finished in this session (design in DESIGN.md section 3); not claimed until its monitor runs silently on the unchanged tree"
 
-# id -> (technique, level text, level note, design ref)
-CLAIMED = {
- "C01": ("paired abstract/concrete executions + admits-relation monitor",
-         "Every operation method is executed twice, on wholly known operands and on operands weakened to admitting unknowns (sampled at every depth, plus a fixed catalogue x every single-position weakening x every refinement kind, enumerated completely); an oracle over the two results decides 'admits'. Held-on-observed-executions is the level this family can give for an all-inputs quantifier.",
-         "Trusts mon.Admits (weakest reading; infinite bounds = unset), the generators' claim that each weakening admits what it replaces, math/big. Says nothing about operand shapes the generators do not produce (depth > 3, capsule operands).",
-         "DESIGN.md 3/C01"),
- "C03": ("algebraic-law monitor over all pool pairs + model-set replay of ValueSet histories + hash-bucket invariant hook",
-         "Equality/hash/order laws are evaluated on ALL ordered pairs (and sampled triples) of collision-rich per-type pools; ValueSet histories are replayed against a model set after every step with the bucket invariant read through a tag-guarded hook; SetVal is run over every permutation of drawn member lists. Exploration level: the quantifier is over all values and histories.",
-         "Trusts the documented equality as modelled (model.NumEqualDoc, mon.ModelEqual), math/big text formatting, and the hook's copy of the buckets. Pools are finite; ordering demanded only for capsule-free wholly known members.",
-         "DESIGN.md 3/C03"),
-}
-PENDING_REASON = "check not built yet in this session (design in DESIGN.md section 3); not claimed until its monitor runs silently on the unchanged tree"
+claimed_ids = [l.strip() for l in open(os.path.join(ROOT, "tools", "claimed.txt")) if l.strip() and not l.startswith("#")]
+reasons = {}
+p = os.path.join(ROOT, "tools", "not_claimed.json")
+if os.path.exists(p):
+    reasons = json.load(open(p))
+RACE = {"C20"}
+QUICK_ONLY = set()
 
 props = [json.loads(l) for l in open(os.path.join(ROOT, "properties.jsonl"))]
 hook_commits = subprocess.run(["git", "-C", "/repo", "log", "--format=%h %s", "--grep=^verif hooks"], capture_output=True, text=True).stdout.strip().splitlines()
-checks, na = [], []
-for p in props:
-    pid = p["id"]
-    if pid in CLAIMED:
-        tech, text, note, ref = CLAIMED[pid]
+checks, na, served = [], [], []
+for pr in props:
+    pid = pr["id"]
+    low = pid.lower()
+    entry = os.path.join(ROOT, "harness", "props", low, "MANIFEST_ENTRY.json")
+    reg = os.path.join(ROOT, "harness", "cmd", "vcheck", f"reg_{low}.go")
+    if pid in claimed_ids and os.path.exists(entry) and os.path.exists(reg):
+        e = json.load(open(entry))
+        served.append(pid)
         checks.append({
             "property_id": pid,
             "quick_cmd": f"/verif/check.sh {pid} quick",
@@ -31,12 +36,12 @@ for p in props:
             "evidence_file": f"/verif/evidence/{pid}.json",
             "replay_cmd_template": f"/verif/check.sh {pid} --replay {{path}}",
             "engine": "vcheck",
-            "level_claimed": {"category": "exploration", "text": text, "design_ref": ref},
-            "level_note": note,
-            "technique": tech,
+            "level_claimed": {"category": "exploration", "text": e["text"], "design_ref": f"DESIGN.md 3/{pid}"},
+            "level_note": e["note"],
+            "technique": e["technique"],
         })
     else:
-        na.append({"property_id": pid, "reason": PENDING_REASON})
+        na.append({"property_id": pid, "reason": reasons.get(pid, DEFAULT_REASON)})
 m = {
  "version": 1,
  "setup_cmd": "/verif/setup.sh",
@@ -48,12 +53,13 @@ m = {
    "add_only": True,
  },
  "engines": [
-   {"name": "vcheck", "path": "/verif/harness/cmd/vcheck", "serves_properties": sorted(CLAIMED), "kind_free_text": "Go harness: seeded workload generators, reference-model / relational monitors over executions of the real library, worker process per batch, evidence + replay writer"},
-   {"name": "go race detector", "path": "go build -race", "serves_properties": ["C20"] if "C20" in CLAIMED else [], "kind_free_text": "compiler sanitizer (happens-before data-race detection)"},
+   {"name": "vcheck", "path": "/verif/harness/cmd/vcheck", "serves_properties": served, "kind_free_text": "Go harness: seeded workload generators, reference-model / relational monitors over executions of the real library, worker process per batch, evidence + replay writer"},
+   {"name": "go race detector", "path": "go build -race", "serves_properties": [p for p in served if p in RACE], "kind_free_text": "compiler sanitizer (happens-before data-race detection) over the multi-goroutine stage of C20"},
+   {"name": "porcupine", "path": "github.com/anishathalye/porcupine v1.3.0 (module cache)", "serves_properties": [p for p in served if p in RACE], "kind_free_text": "linearizability checker over the recorded multi-goroutine history of C20 stage c"},
  ],
  "checks": checks,
  "not_applicable": na,
  "notes": "All checks are runtime monitors over executions of the real code (level 'exploration'); see DESIGN.md. known_findings.json lists genuine defects (fixed ones with their fix: commit).",
 }
 json.dump(m, open(os.path.join(ROOT, "MANIFEST.json"), "w"), indent=1)
-print("claimed:", sorted(CLAIMED), "pending:", len(na))
+print("claimed:", served, "not claimed:", len(na))
